@@ -569,7 +569,7 @@ impl<'a> VisitMut for Rw<'a> {
             }
         }
         // R6: whole-expression instantiation (paths to abstract constants, e.g. `P::BaseField::ONE` => `F::one()`)
-        if matches!(e, Expr::Path(_) | Expr::Call(_)) && !self.ctx.expr_rw.is_empty() {
+        if matches!(e, Expr::Path(_) | Expr::Call(_) | Expr::MethodCall(_)) && !self.ctx.expr_rw.is_empty() {
             let txt = squash(&e.to_token_stream().to_string());
             for (from, to) in &self.ctx.expr_rw {
                 if *from == txt {
@@ -768,6 +768,7 @@ struct UnitSpec {
     spec: String,
     anchors: BTreeMap<String, String>,
     open_attrs: String, // extra attributes to print before the fn
+    drop_const: bool,
     self_ty: Option<String>,  // R12: `Self` => this type parameter (trait default method verified as generic free fn)
     generics: Option<String>, // generic parameters to prepend
 }
@@ -858,6 +859,10 @@ fn gen_unit(ctx: &mut Ctx, u: &UnitSpec, report: &mut Vec<serde_json::Value>) ->
         die(&format!("unsupported-construct in {}: {e}", u.name));
     }
 
+    if u.drop_const && fp.sig.constness.is_some() {
+        fp.sig.constness = None;
+        log.add("R1", "drop-const", "`const` qualifier dropped (inert for run-time semantics)".into());
+    }
     // R12: trait default method as a generic free function over an arbitrary implementor
     if let Some(t) = &u.self_ty {
         struct SelfTy(String);
@@ -1331,6 +1336,7 @@ fn main() {
                     u.ufcs_calls = kv.get("ufcs").map(|m| m == "calls").unwrap_or(false);
                     u.open_attrs = kv.get("attrs").cloned().unwrap_or_default();
                     u.self_ty = kv.get("self_ty").cloned();
+                    u.drop_const = kv.get("const").map(|m| m == "drop").unwrap_or(false);
                     u.generics = kv.get("generics").cloned();
                     cur = Some(u);
                     cur_anchor = None;
